@@ -411,6 +411,21 @@ def EFib.elemsSpec (F : EFib) : List (Option Int × Option Int) :=
                | none => some (F.vals.getD e.2 0)
                | some _ => some ((F.kid0 + e.2 : Nat) : Int)))
 
+/-- depth-first walk of the encoded tensor through the handle interface: scan the fiber at
+    position `idx` of the first rank list; a leaf element yields its value (zeros are not content),
+    an element above the leaf rank continues in the fiber its payload designates -/
+def walkM : List (List EFib) → Nat → Content
+  | [], _ => []
+  | R :: rest, idx =>
+    let F := R.getD idx default
+    F.scanElems.flatMap (fun e =>
+      match e.1, e.2 with
+      | some c, some res =>
+        (match F.next with
+         | none => if res = 0 then [] else [([c], res)]
+         | some _ => (walkM rest res.toNat).map (fun pv => (c :: pv.1, pv.2)))
+      | _, _ => [])
+
 /-! ### Model-domain guard -/
 
 /-- all coordinates of the tree lie inside the tensor's shape (rank by rank) -/
